@@ -18,6 +18,14 @@ type G struct {
 	Conns   int
 	// Malformed is the share (0..100) of deliberately malformed commands
 	Malformed int
+	// Script: steps to issue next, verbatim, before anything else is generated (a directed sequence
+	// started by one of the templates). `VERIF-SLEEP <ms>` is a pseudo-operation of the corr tool.
+	Script []Step
+}
+
+type Step struct {
+	Conn int
+	Argv []string
 }
 
 // Hash is the table hash of the emulator (set by the tools that link the emulator); with it the
@@ -407,7 +415,9 @@ func init() {
 	add("list mixed", 5, func(g *G) []string {
 		return []string{"LINSERT", g.Key(), g.kw(g.pick("BEFORE", "AFTER")), g.Elem(), g.Elem()}
 	})
-	add("list mixed", 5, func(g *G) []string { return []string{"LREM", g.Key(), g.pick("0", "1", "-1", "2", "-2", "5", "-5", g.Int()), g.Elem()} })
+	add("list mixed", 5, func(g *G) []string {
+		return []string{"LREM", g.Key(), g.pick("0", "1", "-1", "2", "-2", "5", "-5", g.Int()), g.Elem()}
+	})
 	add("list mixed", 5, func(g *G) []string { return []string{"LTRIM", g.Key(), g.Int(), g.Int()} })
 	add("list mixed", 6, func(g *G) []string {
 		a := []string{"LPOS", g.Key(), g.Elem()}
@@ -765,6 +775,22 @@ func init() {
 	add("tx", 2, func(g *G) []string {
 		return []string{g.pick("CLIENT NOSUCH", "COMMAND NOSUCH", "CLIENT", "client nosuch arg", "COMMAND NOSUCH get", "CLIENT GETNAME")}
 	})
+	// a watched key expires between WATCH and EXEC and nothing else happens to its database in the meantime
+	// (reads only): EXEC must answer null. The whole sequence is issued verbatim.
+	add("tx", 1, func(g *G) []string {
+		k, c, o := g.Key(), 1+g.R.Intn(g.Conns), 1+g.R.Intn(g.Conns)
+		ms := 8 + g.R.Intn(20)
+		g.Script = append(g.Script,
+			Step{o, []string{"SET", k, "soon-gone", "PX", strconv.Itoa(ms)}},
+			Step{c, []string{"WATCH", k}},
+			Step{c, []string{"MULTI"}},
+			Step{c, []string{"SET", g.Key(), "by-the-transaction"}},
+			Step{o, []string{g.pick("GET", "EXISTS", "TTL", "STRLEN"), k}},
+			Step{1, []string{"VERIF-SLEEP", strconv.Itoa(ms + 12)}},
+			Step{o, []string{g.pick("GET", "EXISTS", "PTTL"), k}},
+			Step{c, []string{"EXEC"}})
+		return []string{"DISCARD"}
+	})
 	// a flush is a modification of every watched key of the database(s) it empties
 	add("tx", 1, func(g *G) []string { return []string{g.pick("FLUSHDB", "FLUSHALL")} })
 	add("mixed", 1, func(g *G) []string { return []string{g.pick("MULTI", "EXEC", "DISCARD", "UNWATCH")} })
@@ -775,7 +801,9 @@ func init() {
 	})
 	add("db", 3, func(g *G) []string { return []string{g.pick("FLUSHDB", "FLUSHALL")} })
 	// the modifiers: whatever they say, the flush is done when the reply is sent
-	add("db tx", 2, func(g *G) []string { return []string{g.pick("FLUSHDB", "FLUSHALL"), g.kw(g.pick("ASYNC", "SYNC", "ASYNC"))} })
+	add("db tx", 2, func(g *G) []string {
+		return []string{g.pick("FLUSHDB", "FLUSHALL"), g.kw(g.pick("ASYNC", "SYNC", "ASYNC"))}
+	})
 	// transactions that change the selected database half-way (D25) and flush what is selected by then
 	add("db", 4, func(g *G) []string { return []string{"MULTI"} })
 	add("db", 5, func(g *G) []string { return []string{"EXEC"} })
@@ -825,6 +853,11 @@ func inFam(t tmpl, fam string) bool {
 
 // Next produces the next command (argv[0] is the command name) and the connection to send it on.
 func (g *G) Next() (conn int, argv []string, malformed bool) {
+	if len(g.Script) > 0 {
+		st := g.Script[0]
+		g.Script = g.Script[1:]
+		return st.Conn, st.Argv, false
+	}
 	total := 0
 	for _, t := range templates {
 		if inFam(t, g.Fam) {
